@@ -5,6 +5,7 @@ from __future__ import annotations
 from typing import TYPE_CHECKING, Any
 
 from hypergraph.runners._shared.gate_execution import execute_ifelse
+from hypergraph.runners.async_.superstep import get_concurrency_limiter
 
 if TYPE_CHECKING:
     from hypergraph.nodes.gate import IfElseNode
@@ -24,4 +25,10 @@ class AsyncIfElseNodeExecutor:
         state: GraphState,
         inputs: dict[str, Any],
     ) -> dict[str, Any]:
+        # The routing function is a node function like any other: it counts
+        # against max_concurrency (shared limiter, taken at the leaf)
+        semaphore = get_concurrency_limiter()
+        if semaphore:
+            async with semaphore:
+                return execute_ifelse(node, state, inputs)
         return execute_ifelse(node, state, inputs)
